@@ -35,7 +35,7 @@ PROPS = {
 
 PROPS['C15'] = {
     'harness': 'hist', 'level': 'exploration',
-    'runs': {'quick': 1200, 'thorough': 40000},
+    'runs': {'quick': 1500, 'thorough': 40000},
     'cpu_s': 300, 'wall_s': 900,
     'rule': ('one run = one seeded history of 6-40 steps (auto / explicit / '
              'wrong-format / failing / multi-file / repeated opens, reader '
